@@ -196,7 +196,7 @@ def handleK (op : String) (args res : List String) : Option Verdict :=
         [Float.atan r.tphi.v / degF, r.lam.v / degF, r.gamma.v / degF, r.k.v, Float.abs r.dpsi.v + Float.asinh (Float.abs r.tchi.v)]
       let ra := run 0 x y
       let r0 := lccReverse tauf (⟨⟨a⟩, ⟨f⟩⟩ : Ell (FK 0)) (lccOf 0 m) ⟨x⟩ ⟨y⟩
-      if !(taufConv r0.tchi (⟨⟨a⟩, ⟨f⟩⟩ : Ell (FK 0)).es) then .skip "five Newton iterations do not reach the tolerance of Math::tauf (open finding F84): nothing to compare" else
+      if !(taufConv r0.tchi (⟨⟨a⟩, ⟨f⟩⟩ : Ell (FK 0)).es) then .skip "the Newton loop of Math::tauf runs into its cap (50 iterations since 707b423, finding F88): nothing to compare" else
       -- probe runs, and the sensitivity to the last bit of the inputs (drho is a difference of squares)
       let rb := farL ra [run 1 x y, run 2 x y, run 3 x y, run 4 x y, run 5 x y, run 0 (x * onePlus) y, run 0 x (y * onePlus)]
       let mlon := ra.getD 1 0
@@ -217,7 +217,7 @@ def handleK (op : String) (args res : List String) : Option Verdict :=
       let ra := run 0 x y
       let E0 : Ell (FK 0) := ⟨⟨a⟩, ⟨f⟩⟩
       let r0 := albReverse (fun t => tphif E0 t) E0 (albOf 0 m) ⟨x⟩ ⟨y⟩
-      if !(tphifConv E0 r0.txi) then .skip "five Newton iterations do not reach the tolerance of AlbersEqualArea::tphif (open finding F84): nothing to compare" else
+      if !(tphifConv E0 r0.txi) then .skip "the Newton loop of AlbersEqualArea::tphif runs into its cap (50 iterations since 707b423, finding F88): nothing to compare" else
       -- probe runs, and the sensitivity to the last bit of the inputs (drho is a difference of squares)
       let rb := farL ra [run 1 x y, run 2 x y, run 3 x y, run 4 x y, run 5 x y, run 0 (x * onePlus) y, run 0 x (y * onePlus)]
       let mlon := ra.getD 1 0
@@ -248,7 +248,7 @@ def handleK (op : String) (args res : List String) : Option Verdict :=
       let ta := (txif (E 0) ⟨tphi⟩).v; let tb := (txif (E 1) ⟨tphi⟩).v
       let ba := (tphif (E 0) ⟨txi⟩).v; let bb := (tphif (E 1) ⟨txi⟩).v
       let bc := (tphif (E 0) ⟨txi * onePlus⟩).v
-      -- tphif is compared only where its Newton loop stops by its tolerance (the cap of 5 iterations is silent: open finding F84)
+      -- tphif is compared only where its Newton loop stops by its tolerance (the cap, 50 iterations since 707b423 — finding F88 —, is silent)
       checks "AlbersEqualArea::txif/tphif" ([("txif", txi, ta, tb, 0)] ++ (if tphifConv (E 0) ⟨txi⟩ then [("tphif", back, ba, bb, 8 * Float.abs (bc - ba))] else []))
     | _, _ => .bad "parse"
   | "cddat" => some <|
@@ -256,15 +256,14 @@ def handleK (op : String) (args res : List String) : Option Verdict :=
     match args.mapM pfl, res.mapM pfl with
     | some [f, x, y, xm], some [dd, am] =>
       let E (p : Nat) : Ell (FK p) := ⟨⟨1⟩, ⟨f⟩⟩
-      -- the numerical-range defects of DDatanhee2 (open finding F81; the class is decided from the arguments): for e² < −3 with the
-      -- series selected the sum cancels catastrophically and overflows; for 1 − e² < 1e-3 the scale factor overflows before convergence
+      -- the open numerical-range defect of DDatanhee2 (finding F93; the class is decided from the arguments): for 1 − e² < 1e-3 the scale
+      -- factor 1/(1 − e²)^m overflows before convergence (the cancellation for e² < −3, finding F85, is repaired by e5ca000 and compared again)
       let e2 := f * (2 - f); let lo := if y < x then y else x
-      let q2 := Float.abs (2 * Float.sqrt (Float.abs e2) / (1 - e2) * (1 - lo))
+      let q2 := Float.abs ((if f < 0 then 1 + Float.sqrt (Float.abs e2) else 2) * Float.sqrt (Float.abs e2) / (1 - e2) * (1 - lo))
       let sel2 := lo > 0 && q2 < 0.75 && !(Float.abs e2 < q2)
       let l10 (v : Float) : Float := Float.log v / Float.log 10
       let over := sel2 && e2 > 0 && (16 / (0 - l10 q2) + 2) * (if l10 (1 - e2) < l10 (1 - lo) then 0 - l10 (1 - e2) else 0 - l10 (1 - lo)) > 250
-      let inF81 := (e2 < -3 && sel2) || over
-      if inF81 then checks "AlbersEqualArea::atanhxm1" [("atanhxm1", am, (atanhxm1 (⟨xm⟩ : FK 0)).v, (atanhxm1 (⟨xm⟩ : FK 1)).v, 0)] else
+      if over then checks "AlbersEqualArea::atanhxm1" [("atanhxm1", am, (atanhxm1 (⟨xm⟩ : FK 0)).v, (atanhxm1 (⟨xm⟩ : FK 1)).v, 0)] else
       checks "AlbersEqualArea::DDatanhee/atanhxm1" [("DDatanhee", dd, (DDatanhee (E 0) ⟨x⟩ ⟨y⟩).v, (DDatanhee (E 1) ⟨x⟩ ⟨y⟩).v, 0),
         ("atanhxm1", am, (atanhxm1 (⟨xm⟩ : FK 0)).v, (atanhxm1 (⟨xm⟩ : FK 1)).v, 0)]
     | _, _ => .bad "parse"
